@@ -358,6 +358,63 @@ def rule_pattern(ctx, repo):
               m.W())
 
 
+def tv_sensitivity(ctx, models, gens, per_model=4, seed=0):
+    """thorough: every provably non-equivalent mutant of a generated Jacobian function must be reported."""
+    import random
+    from engine import tvmut
+    rnd = random.Random(seed)
+    total = caught = skipped = 0
+    missed = []
+    for name, m in models.items():
+        gen = gens[name]
+        try:
+            mt = tv.ModelTV(name, m, gen)
+        except dsl.DSLError:
+            continue
+        fl = tv.flags_of(m, mt.st)
+        sx, sy, allv = mt.var_order()
+        T = gen.tables
+        for jn in JN:
+            gf = gen.funcs.get(jn + "_update")
+            if gf is None or gf.ret is None:
+                continue
+            rows, cols = T["ijac"][jn], T["jjac"][jn]
+            rownames = sx if jn[0] == "f" else sy
+            try:
+                decl = [sp.diff(mt.eq(rownames[r]), mt.st.get(allv[c])) for r, c in zip(rows, cols)]
+                orig = [mt.gen_expr(e, gf.params) for e in gf.elements()]
+            except Exception:
+                continue
+            for kind, mf in tvmut.mutants_of(gf, rnd, k=per_model):
+                try:
+                    if list(mf.params) != list(T["j_args"][jn]):
+                        verdict, nonequiv = "violation", True
+                    else:
+                        got = [mt.gen_expr(e, mf.params) for e in mf.elements()]
+                        nonequiv = any(dsl.numeric_nonzero(sp.expand(a - b), flags=fl) is True for a, b in zip(orig, got))
+                        if not nonequiv:
+                            skipped += 1
+                            continue
+                        verdict = "ok"
+                        for a, b in zip(decl, got):
+                            if dsl.equal(a, b, flags=fl, deep=False)[0] == "differ":
+                                verdict = "violation"
+                                break
+                except dsl.DSLError:
+                    verdict = "violation"
+                except Exception:
+                    skipped += 1
+                    continue
+                total += 1
+                if verdict == "violation":
+                    caught += 1
+                else:
+                    missed.append("%s.%s/%s" % (name, jn, kind))
+    ctx.extra["tv_sensitivity"] = dict(mutants=total, caught=caught, skipped_equivalent_or_unparsed=skipped, missed=missed[:20])
+    print("   tv sensitivity: %d/%d non-equivalent mutants of generated Jacobian functions reported (%d skipped)" % (caught, total, skipped))
+    return missed
+
+
 def run(ctx):
     ctx.rule("C03.entry", "k-th element of <jname>_update == d eq[ijac[k]] / d var[jjac[k]] by own differentiation of own "
              "parse; filed under e_code+v_code; no duplicates", 2500)
@@ -381,6 +438,11 @@ def run(ctx):
         if r["rule"] == "C02.binding":
             r["rule"] = "C03.binding"
     ctx.nontrivial = {(("C03.binding" if k[0] == "C02.binding" else k[0]), k[1]) for k in ctx.nontrivial}
+    if ctx.tier == "thorough":
+        missed = tv_sensitivity(ctx, models, gens)
+        if missed:
+            from engine.report import AnalysisError
+            raise AnalysisError("translation validator is blind to %d mutants of generated Jacobians, e.g. %s" % (len(missed), missed[:3]))
     rule_index_conventions(ctx, repo)
     rule_pattern(ctx, repo)
     for r in ctx.results:
